@@ -2,35 +2,43 @@ import AioslskVerif.Model.Search
 /-!
 Line protocol for K_C18 (one input line → one output line).
 
-  `new <request_timeout> <wishlist_request_timeout> <store 0|1> <initial> <items>`   → `ok`
+  `new <request_timeout> <wishlist_request_timeout> <store 0|1> <initial> <items> [<removal listeners>]`   → `ok`
   `search net|room|user`      `wlmsg <n>`      `wlclose`      `remove <tk>`      `reply <tk>`
   `tcancel <tk>`              `tresched <tk> <n>`             `jump <d>`         `sleep <d>`
-      → `<events> | live=<tickets> armed=<tickets> res=<tk:n,…> pend=<k> now=<t>`
+  `stop`                      `resume <tk>`
+      → `<events> | live=<tickets> armed=<tickets> res=<tk:n,…> pend=<k> [rep=<tk:told,…>] now=<t>`
   events (sorted): `<t>:S:<tk>` sent, `<t>:X:<tk>` removed, `<t>:R:<tk>` result, `<t>:E:<tk>` KeyError in a timer
-  task, `KeyError` raised to the caller, `noreq` / `notimer`, `clobber`.
-`sleep d` is executed as `Search.sleepOps d` with the same `step` the theorems are about.
+  task, `<t>:T<i>:<tk>` removal listener `i` called, `<t>:A<i>:<tk>` report aborted after `i` listeners,
+  `KeyError` raised to the caller, `noreq` / `notimer` / `noemit`, `clobber`.
+`sleep d` is executed as `Search.sleepOps d`, `stop` as `Search.stopOps`, with the same `step` / `nstep` the theorems
+are about; `resume tk` = `NOp.resume` of the report for that ticket, then the loop runs (`settle`).
+`pend` counts the timer tasks that have not finished: the pending ones and those still reporting a removal.
 -/
 open AioslskVerif.Search
 
-def obsKey : Obs → (Nat × Nat × Nat)
-  | .sent t _ tk => (t, 2, tk)
-  | .removed t _ tk _ _ => (t, 3, tk)
-  | .result t _ tk => (t, 1, tk)
-  | .loopErr t _ tk _ => (t, 0, tk)
-  | .callerErr => (0, 4, 0)
-  | .noReq => (0, 5, 0)
-  | .noTimer => (0, 6, 0)
-  | .clobber _ _ => (0, 7, 0)
+/-- sort key of an event token: (time, class, ticket); `none` = not an event (printed after the events) -/
+def obsKey : NObs → Option (Nat × Nat × Nat)
+  | .base (.sent t _ tk) => some (t, 2, tk)
+  | .base (.removed t _ tk _ _) => some (t, 3, tk)
+  | .base (.result t _ tk) => some (t, 1, tk)
+  | .base (.loopErr t _ tk _) => some (t, 0, tk)
+  | .told t _ tk _ => some (t, 4, tk)
+  | .aborted t _ tk _ => some (t, 5, tk)
+  | _ => none
 
-def obsStr : Obs → String
-  | .sent t _ tk => s!"{t}:S:{tk}"
-  | .removed t _ tk _ _ => s!"{t}:X:{tk}"
-  | .result t _ tk => s!"{t}:R:{tk}"
-  | .loopErr t _ tk _ => s!"{t}:E:{tk}"
-  | .callerErr => "KeyError"
-  | .noReq => "noreq"
-  | .noTimer => "notimer"
-  | .clobber _ _ => "clobber"
+def obsStr : NObs → String
+  | .base (.sent t _ tk) => s!"{t}:S:{tk}"
+  | .base (.removed t _ tk _ _) => s!"{t}:X:{tk}"
+  | .base (.result t _ tk) => s!"{t}:R:{tk}"
+  | .base (.loopErr t _ tk _) => s!"{t}:E:{tk}"
+  | .told t _ tk i => s!"{t}:T{i}:{tk}"
+  | .aborted t _ tk i => s!"{t}:A{i}:{tk}"
+  | .finished _ _ _ => ""
+  | .base .callerErr => "KeyError"
+  | .base .noReq => "noreq"
+  | .base .noTimer => "notimer"
+  | .noEmission => "noemit"
+  | .base (.clobber _ _) => "clobber"
 
 def keyLe (a b : Nat × Nat × Nat) : Bool :=
   a.1 < b.1 || (a.1 == b.1 && (a.2.1 < b.2.1 || (a.2.1 == b.2.1 && a.2.2 ≤ b.2.2)))
@@ -43,53 +51,72 @@ def sortBy (le : α → α → Bool) (l : List α) : List α := l.foldr (insertS
 
 def natsStr (l : List Nat) : String := ",".intercalate ((sortBy (fun a b => decide (a ≤ b)) l).map toString)
 
-def summary (s : State) (obs : List Obs) : String :=
-  -- several clobbers in one op print once
-  let clob := obs.any (fun o => match o with | .clobber _ _ => true | _ => false)
-  let obs := obs.filter (fun o => match o with | .clobber _ _ => false | _ => true)
-  let evs := " ".intercalate ((sortBy (fun a b => keyLe (obsKey a) (obsKey b)) obs).map obsStr ++
-    (if clob then ["clobber"] else []))
+def summary (ns : NState) (obs : List NObs) : String :=
+  let s := ns.base
+  -- several clobbers in one op print once; `finished` is seen through `pend` / `rep` only
+  let clob := obs.any (fun o => match o with | .base (.clobber _ _) => true | _ => false)
+  let obs := obs.filter (fun o => match o with | .base (.clobber _ _) => false | .finished _ _ _ => false | _ => true)
+  let evs := obs.filter (fun o => (obsKey o).isSome)
+  let rest := obs.filter (fun o => (obsKey o).isNone)
+  let toks := (sortBy (fun a b => keyLe ((obsKey a).getD (0, 0, 0)) ((obsKey b).getD (0, 0, 0))) evs).map obsStr ++
+    rest.map obsStr ++ (if clob then ["clobber"] else [])
   let live := natsStr (s.requests.map (·.ticket))
   let armed := natsStr ((s.requests.filter (·.handle.isSome)).map (·.ticket))
   let res := ",".intercalate ((sortBy (fun (a b : Req) => decide (a.ticket ≤ b.ticket)) s.requests).map
     (fun r => s!"{r.ticket}:{r.results}"))
-  s!"{evs} | live={live} armed={armed} res={res} pend={s.tasks.length} now={s.now}"
+  let rep := if ns.listeners = 0 then "" else
+    " rep=" ++ ",".intercalate ((sortBy (fun (a b : Emission) => decide (a.ticket ≤ b.ticket)) ns.reporting).map
+      (fun e => s!"{e.ticket}:{e.told}"))
+  s!"{" ".intercalate toks} | live={live} armed={armed} res={res} pend={s.tasks.length + ns.reporting.length}{rep} now={s.now}"
 
 def parseInt (x : String) : Option Int :=
   if x.startsWith "-" then (x.drop 1).toNat?.map (fun n => - (n : Int)) else x.toNat?.map (fun n => (n : Int))
 
-def ops (line : String) : Option (List Op) :=
+def ops (s : NState) (line : String) : Option (List NOp) :=
   match (line.splitOn " ").filter (· ≠ "") with
-  | ["search", "net"] => some [.search .network]
-  | ["search", "room"] => some [.search .room]
-  | ["search", "user"] => some [.search .user]
+  | ["search", "net"] => some [.base (.search .network)]
+  | ["search", "room"] => some [.base (.search .room)]
+  | ["search", "user"] => some [.base (.search .user)]
   | ["wlmsg", n] => match n.toNat? with
-    | some (n + 1) => some [.wlInterval (n + 1)]
+    | some (n + 1) => some [.base (.wlInterval (n + 1))]
     | _ => none                 -- interval 0 makes the real wishlist task spin; outside the model
-  | ["wlclose"] => some [.serverClosing]
-  | ["remove", t] => t.toNat?.map fun t => [.remove t]
-  | ["reply", t] => t.toNat?.map fun t => [.reply t]
-  | ["tcancel", t] => t.toNat?.map fun t => [.timerCancel t]
+  | ["wlclose"] => some [.base .serverClosing]
+  | ["remove", t] => t.toNat?.map fun t => [.base (.remove t)]
+  | ["reply", t] => t.toNat?.map fun t => [.base (.reply t)]
+  | ["tcancel", t] => t.toNat?.map fun t => [.base (.timerCancel t)]
   | ["tresched", t, n] => match t.toNat?, n.toNat? with
-    | some t, some n => some [.timerReschedule t n]
+    | some t, some n => some [.base (.timerReschedule t n)]
     | _, _ => none
-  | ["jump", d] => d.toNat?.map fun d => [.jump d]
-  | ["sleep", d] => d.toNat?.map sleepOps
+  | ["jump", d] => d.toNat?.map fun d => [.base (.jump d)]
+  | ["sleep", d] => d.toNat?.map fun d => (sleepOps d).map .base
+  | ["stop"] => some ((stopOps s.base).map .base)
+  | ["resume", t] => t.toNat?.map fun t =>
+    -- the report for the request announced with ticket `t`; an unknown one resumes nothing (`noemit`)
+    [.resume (((s.reporting.find? (·.ticket = t)).map (·.rid)).getD 0), .base .settle]
   | _ => none
 
-def handle (s : State) (line : String) : State × String :=
+def mkCfg (rt wt st ini items : String) : Option Cfg :=
+  match parseInt rt, parseInt wt, st.toNat?, ini.toNat?, items.toNat? with
+  | some rt, some wt, some st, some ini, some items =>
+    some { requestTimeout := rt, wishlistTimeout := wt, storeResults := st != 0, initial := ini, items := items }
+  | _, _, _, _, _ => none
+
+def handle (s : NState) (line : String) : NState × String :=
   match (line.splitOn " ").filter (· ≠ "") with
   | ["new", rt, wt, st, ini, items] =>
-    match parseInt rt, parseInt wt, st.toNat?, ini.toNat?, items.toNat? with
-    | some rt, some wt, some st, some ini, some items =>
-      (init { requestTimeout := rt, wishlistTimeout := wt, storeResults := st != 0, initial := ini, items := items }, "ok")
-    | _, _, _, _, _ => (s, "bad-op")
+    match mkCfg rt wt st ini items with
+    | some c => (ninit c 0, "ok")
+    | none => (s, "bad-op")
+  | ["new", rt, wt, st, ini, items, nl] =>
+    match mkCfg rt wt st ini items, nl.toNat? with
+    | some c, some nl => (ninit c nl, "ok")
+    | _, _ => (s, "bad-op")
   | _ =>
-    match ops line with
+    match ops s line with
     | none => (s, "unsupported")
-    | some l => let r := run s l; (r.1, summary r.1 r.2)
+    | some l => let r := nrun s l; (r.1, summary r.1 r.2)
 
-partial def loop (h : IO.FS.Stream) (s : State) : IO Unit := do
+partial def loop (h : IO.FS.Stream) (s : NState) : IO Unit := do
   let line ← h.getLine
   if line.isEmpty then return ()
   let (s', out) := handle s line.trimAscii.toString
@@ -97,4 +124,5 @@ partial def loop (h : IO.FS.Stream) (s : State) : IO Unit := do
   loop h s'
 
 def main : IO Unit := do
-  loop (← IO.getStdin) (init { requestTimeout := 0, wishlistTimeout := -1, storeResults := true, initial := 1, items := 0 })
+  loop (← IO.getStdin)
+    (ninit { requestTimeout := 0, wishlistTimeout := -1, storeResults := true, initial := 1, items := 0 } 0)
